@@ -281,12 +281,14 @@ func (j jobClient) OperatorCheckpointComplete(ctx context.Context, req *snapshot
 	})
 }
 func (j jobClient) OnSourceRunnerCheckpointComplete(ctx context.Context, req *jobpb.SourceRunnerCheckpointCompleteRequest) error {
+	if k := j.w.src.kin; k != nil {
+		k.onAck(req.SourceRunnerId, req.CheckpointId)
+	}
 	return j.call("SourceRunnerCheckpointComplete", func(job *jobs.Job) error {
 		rec := srAckRec{srID: req.SourceRunnerId, ckpt: req.CheckpointId, cursor: map[string]int64{}}
 		for _, b := range req.SplitStates {
-			var st simSplitState
-			if json.Unmarshal(b, &st) == nil {
-				rec.cursor[st.SplitID] = st.Cursor
+			if id, cur, ok := j.w.src.decodeState(b); ok {
+				rec.cursor[id] = cur
 			}
 		}
 		j.w.mu.Lock()
@@ -466,7 +468,7 @@ func (s *cluSRClient) Deploy(ctx context.Context, req *workerpb.DeploySourceRunn
 func (s *cluSRClient) AssignSplits(ctx context.Context, splits []*workerpb.SourceSplit) error {
 	rec := assignRec{srID: s.node.Id, splits: map[string]int64{}}
 	for _, sp := range splits {
-		rec.splits[sp.SplitId] = decodeCursor(sp.Cursor)
+		rec.splits[sp.SplitId] = s.w.src.assignCursor(sp.Cursor)
 		fmt.Sscanf(sp.SourceId, "sim/%d", &rec.round)
 	}
 	s.w.mu.Lock()
@@ -567,6 +569,7 @@ type simSplitState struct {
 
 type simSource struct {
 	w       *cluWorld
+	kin     *kinWorld // non-nil: the source is the Kinesis connector over the in-process fake
 	splits  [][]simRecord
 	batch   int
 	paceMS  int64
@@ -584,7 +587,43 @@ func (s *simSource) Validate() error { return nil }
 func (s *simSource) ProtoMessage() *jobconfigpb.Source {
 	return &jobconfigpb.Source{Config: &jobconfigpb.Source_Embedded{Embedded: &jobconfigpb.EmbeddedSource{SplitCount: int32(len(s.splits))}}}
 }
+
+// split naming and state encoding differ between the two source kinds
+func (s *simSource) splitID(i int) string {
+	if s.kin != nil {
+		return shardName(i)
+	}
+	return fmt.Sprint(i)
+}
+func (s *simSource) splitIndex(id string) (int, bool) {
+	if s.kin != nil {
+		return shardIndex(id)
+	}
+	var idx int
+	n, _ := fmt.Sscanf(id, "%d", &idx)
+	return idx, n == 1 && idx >= 0 && idx < len(s.splits)
+}
+func (s *simSource) decodeState(b []byte) (string, int64, bool) {
+	if s.kin != nil {
+		return decodeKinState(b)
+	}
+	var st simSplitState
+	if json.Unmarshal(b, &st) != nil {
+		return "", 0, false
+	}
+	return st.SplitID, st.Cursor, true
+}
+func (s *simSource) assignCursor(b []byte) int64 {
+	if s.kin != nil {
+		return kinCursor(b)
+	}
+	return decodeCursor(b)
+}
+
 func (s *simSource) NewSourceSplitter(srIDs []string, hooks connectors.SourceSplitterHooks, errChan chan<- error) connectors.SourceSplitter {
+	if s.kin != nil {
+		return s.kin.newSplitter(srIDs, hooks, errChan)
+	}
 	s.mu.Lock()
 	s.rounds++
 	round := s.rounds
